@@ -279,6 +279,31 @@ func futureScenario(r *R) {
 		r.Violate("C18", "future/stuck/"+c.Kind, "%s never returns (filled=%v): %v", c.Kind, filled, c)
 		return
 	}
+	// a second Fill is documented to panic - and must leave the value alone
+	if doFill && r.Choose(3, "second-fill") == 2 {
+		r.Probe("future-second-fill")
+		panicked := false
+		func() {
+			defer func() {
+				if p := recover(); p != nil {
+					if p == sim.Killed {
+						panic(p)
+					}
+					panicked = true
+				}
+			}()
+			f.Fill(val + 1)
+		}()
+		r.Hist("second-fill", panicked)
+		if !panicked {
+			r.Violate("C18", "future/second-fill-no-panic", "a second Fill returned normally; the documentation says it panics")
+			return
+		}
+		if v, err := f.WaitContext(root.C); v != val || err != nil {
+			r.Violate("C18", "future/value-changed/after-second-fill", "the future was filled with %d; after a second Fill(%d), which panicked as documented, WaitContext returns (%d, %v)", val, val+1, v, err)
+			return
+		}
+	}
 	// later waiters get the same value, for ever
 	if doFill {
 		if v := f.Wait(); v != val {
